@@ -79,6 +79,9 @@ struct TInfo {
   status: TStatus,
   is_worker: bool,
   last_site: &'static str,
+  /// woke up from a failed `try_lock` and has executed nothing since: its next
+  /// yield (the retry) is not progress for anybody else
+  retrying: bool,
 }
 
 struct TSlot {
@@ -172,7 +175,7 @@ impl TSim {
       }
     };
     let threads = (0..n)
-      .map(|i| TInfo { status: TStatus::NotStarted, is_worker: i >= n_user, last_site: "start" })
+      .map(|i| TInfo { status: TStatus::NotStarted, is_worker: i >= n_user, last_site: "start", retrying: false })
       .collect();
     Arc::new(TSim {
       st: Mutex::new(TState {
@@ -349,12 +352,19 @@ impl TSim {
       drop(st);
       self.abort_unwind();
     }
+    // A failed try_lock, and the retry right after waking up from one, change
+    // nothing another thread could be waiting for; everything else may have
+    // released a lock since this thread's previous scheduling point.
+    let is_contended = matches!(status, TStatus::WaitOthers { .. });
+    let was_retrying = std::mem::replace(&mut st.threads[me].retrying, is_contended);
     st.threads[me].status = status;
     st.threads[me].last_site = site;
-    for (i, t) in st.threads.iter_mut().enumerate() {
-      if i != me {
-        if let TStatus::WaitOthers { progress, .. } = &mut t.status {
-          *progress = true;
+    if !is_contended && !(was_retrying && site == "lock") {
+      for (i, t) in st.threads.iter_mut().enumerate() {
+        if i != me {
+          if let TStatus::WaitOthers { progress, .. } = &mut t.status {
+            *progress = true;
+          }
         }
       }
     }
@@ -514,31 +524,28 @@ impl TSim {
     for (tid, body) in all.into_iter().enumerate() {
       let ts = self.clone();
       let panics = panics.clone();
-      let h = std::thread::Builder::new()
-        .stack_size(512 * 1024)
-        .spawn(move || {
-          set_ctx(Some(Ctx { shared: ts.shared.clone(), mode: Mode::Thread(ts.clone(), tid) }));
-          let r = catch_unwind(AssertUnwindSafe(|| {
-            {
-              let st = ts.st.lock().unwrap();
-              let mut st = ts.wait_turn(tid, st);
-              st.threads[tid].status = TStatus::Runnable;
-            }
-            body();
-          }));
-          if let Err(p) = r {
-            if p.downcast_ref::<SimAbort>() != Some(&SimAbort::Aborted) {
-              panics.lock().unwrap().push((tid, panic_message(&*p)));
-            }
+      let job: Body = Box::new(move || {
+        set_ctx(Some(Ctx { shared: ts.shared.clone(), mode: Mode::Thread(ts.clone(), tid) }));
+        let r = catch_unwind(AssertUnwindSafe(|| {
+          {
+            let st = ts.st.lock().unwrap();
+            let mut st = ts.wait_turn(tid, st);
+            st.threads[tid].status = TStatus::Runnable;
           }
-          // finished: hand the baton on (never unwinds: status Finished)
-          let _ = catch_unwind(AssertUnwindSafe(|| {
-            ts.finish(tid);
-          }));
-          set_ctx(None);
-        })
-        .expect("spawn simulated thread");
-      handles.push(h);
+          body();
+        }));
+        if let Err(p) = r {
+          if p.downcast_ref::<SimAbort>() != Some(&SimAbort::Aborted) {
+            panics.lock().unwrap().push((tid, panic_message(&*p)));
+          }
+        }
+        // finished: hand the baton on (never unwinds: status Finished)
+        let _ = catch_unwind(AssertUnwindSafe(|| {
+          ts.finish(tid);
+        }));
+        set_ctx(None);
+      });
+      handles.push(submit_job(tid, job));
     }
     {
       let mut st = self.st.lock().unwrap();
@@ -562,7 +569,7 @@ impl TSim {
       }
     }
     for h in handles {
-      let _ = h.join();
+      wait_job(h);
     }
     let mut st = self.st.lock().unwrap();
     st.driver_done = true;
@@ -642,4 +649,46 @@ pub fn current_tid() -> usize {
     Some(Ctx { mode: Mode::Thread(_, tid), .. }) => tid + 1,
     _ => 0,
   }
+}
+
+// ---- persistent OS threads for simulated threads (one set per batch worker):
+// creating and joining threads per run serialises on the process' mm lock.
+
+struct PoolThread {
+  tx: std::sync::mpsc::Sender<Body>,
+  done: std::sync::mpsc::Receiver<()>,
+}
+
+thread_local! {
+  static OS_THREADS: RefCell<Vec<PoolThread>> = const { RefCell::new(Vec::new()) };
+}
+
+fn submit_job(slot: usize, job: Body) -> usize {
+  OS_THREADS.with(|p| {
+    let mut p = p.borrow_mut();
+    while p.len() <= slot {
+      let (tx, rx) = std::sync::mpsc::channel::<Body>();
+      let (dtx, drx) = std::sync::mpsc::channel::<()>();
+      std::thread::Builder::new()
+        .stack_size(1024 * 1024)
+        .spawn(move || {
+          while let Ok(job) = rx.recv() {
+            job();
+            if dtx.send(()).is_err() {
+              break;
+            }
+          }
+        })
+        .expect("spawn simulated thread");
+      p.push(PoolThread { tx, done: drx });
+    }
+    p[slot].tx.send(job).expect("sim thread gone");
+  });
+  slot
+}
+
+fn wait_job(slot: usize) {
+  OS_THREADS.with(|p| {
+    p.borrow()[slot].done.recv().expect("sim thread died");
+  })
 }
